@@ -407,15 +407,58 @@ def h14d_shards(tier):
         key = dns.tsig.Key(KEYNAME, SECRET, ALGS[0])
         m = base_query()
         m.use_tsig(key)
-        n1 = len(m.to_wire())
+        qw = m.to_wire()
+        n1 = len(qw)
+        pq = dns.message.from_wire(qw, keyring=key)
+        r = dns.message.make_response(pq)
+        r.answer.append(dns.rrset.from_text("www.example.", 300, "IN", "A", "10.0.0.1"))
+        n2 = len(r.to_wire())  # (same construction as in h14d)
     out = []
     step = 8
     for lo in range(0, n1, step):
         out.append({"msg": "query", "octets": (lo, min(n1, lo + step)), "_timeout": 900, "_path_timeout": 60})
     if tier == "thorough":
-        for lo in range(0, n1 + 16, step):
-            out.append({"msg": "response", "octets": (lo, lo + step), "_timeout": 900, "_path_timeout": 60})
+        for lo in range(0, n2, step):
+            out.append({"msg": "response", "octets": (lo, min(n2, lo + step)), "_timeout": 900, "_path_timeout": 60})
     return out
+
+
+# ---------------------------------------------------------------- H14g shortened MACs
+
+def h14g(k: int, alter: bool) -> bool:
+    """A TSIG record re-encoded with only the first k octets of the MAC (k = 0 .. full length - 1): an altered message is never accepted,
+    and an unaltered one is not accepted below the RFC 8945 5.2.2.1 minimum (max(10, half the MAC length))."""
+    use_real()
+    alg = ALGS[S("alg")]
+    with concrete():
+        key = dns.tsig.Key(KEYNAME, SECRET, alg)
+        q = base_query()
+        q.use_tsig(key)
+        w = q.to_wire()
+        wr, rr = tsig_rr(w)
+        rd = dns.rdata.from_wire(dns.rdataclass.ANY, dns.rdatatype.TSIG, w, rr[4], len(rr[5]))
+        full = len(rd.mac)
+    if k >= full:
+        return True
+    short = None
+    for kk in range(full):  # (make k concrete on this path: the TSIG record is rebuilt by the library's own encoder)
+        if k == kk:
+            short = rd.replace(mac=rd.mac[:kk]).to_wire()
+    w2 = w[:rr[4] - 2] + u16(len(short)) + short
+    if alter:
+        w2 = w2[:14] + bytes([w2[14] ^ 0x01]) + w2[15:]  # one bit of the question name
+    hit("presented")
+    try:
+        p = dns.message.from_wire(w2, keyring=key)
+    except dns.exception.DNSException:
+        return True
+    if alter:
+        return False
+    return not (p.had_tsig and k < max(10, full // 2))
+
+
+def h14g_pre(k, alter):
+    return 0 <= k <= 64
 
 
 # ---------------------------------------------------------------- H14e rejection table
@@ -538,6 +581,11 @@ HARNESSES = [
             encodes=["dns.message._WireReader._get_section", "dns.message.Message._parse_special_rr_header", "dns.tsig.validate", "dns.tsig._digest"],
             bound="every single-bit flip of a signed query (thorough: and of a signed response bound to its request MAC); real HMAC-SHA256",
             stubs=["E7"], outside="multi-bit alterations; other messages"),
+    Harness("H14g", h14g, h14g_pre, lambda tier: [{"alg": a, "_timeout": 600, "_path_timeout": 60} for a in ((0, 4, 6) if tier == "quick" else range(len(ALGS)))],
+            kind="finite selection: every prefix length, exhaustive",
+            encodes=["dns.tsig.validate", "dns.tsig.HMACTSig.verify", "dns.message._WireReader._get_section"],
+            bound="signed query whose TSIG record carries only the first k octets of the MAC, every k below the full length, with and without one altered bit in the question; real HMAC; 3 (9) algorithms",
+            stubs=["E7"], outside="other alterations combined with a short MAC"),
     Harness("H14e", h14e, h14e_pre, lambda tier: [{"_timeout": 900, "_path_timeout": 120}], kind="universal",
             encodes=["dns.tsig.validate", "dns.message.Message.use_tsig", "dns.message.Message.to_wire"],
             bound="now and signing time symbolic over 48 bits, fudge over 16 bits", stubs=["E9", "E7", "E1"], outside=""),
